@@ -186,7 +186,12 @@ type evtMsg struct{ N int }
 
 // engEventSeq: all sequences of length<=depth over {sub(p), unsub(p), bcast} from one
 // driver, PID objects pa, pa' (equal value, distinct object), pb; reference = set of PID values.
-func engEventSeq(depth int, withClone bool) vsched.Instance {
+func engEventSeq(depth int, withClone bool) vsched.Instance { return engEventSeqFrom(depth, withClone, false, false) }
+
+// engEventSeqFrom: withForeign adds pf, a PID with the id of pa but a foreign address (a different
+// subscriber: subscribers are identified by address AND id); presub starts from the non-initial
+// state in which pa and pb are already subscribed.
+func engEventSeqFrom(depth int, withClone, withForeign, presub bool) vsched.Instance {
 	var k *Kit
 	var seq []string
 	var want map[string][]int
@@ -195,14 +200,27 @@ func engEventSeq(depth int, withClone bool) vsched.Instance {
 		pa := k.E.Spawn(k.Producer("a", nil), "sub", actor.WithID("a"))
 		pb := k.E.Spawn(k.Producer("b", nil), "sub", actor.WithID("b"))
 		pa2 := actor.NewPID(pa.Address, pa.ID)
+		member := map[string]bool{}
+		if presub {
+			k.E.Subscribe(pa)
+			k.E.Subscribe(pb)
+			member["a"], member["b"] = true, true
+			seq = append(seq, "[pa,pb subscribed]")
+		}
 		vsched.EndSetup()
 		pids := []*actor.PID{pa, pb}
 		names := []string{"pa", "pb"}
+		keys := []string{"a", "b"}
 		if withClone {
 			pids = append(pids, pa2)
 			names = append(names, "pa'")
+			keys = append(keys, "a")
 		}
-		member := map[string]bool{}
+		if withForeign {
+			pids = append(pids, actor.NewPID("10.0.0.7:4000", pa.ID))
+			names = append(names, "pf")
+			keys = append(keys, "f")
+		}
 		want = map[string][]int{}
 		n := 1 + vsched.Choose(depth)
 		ev := 0
@@ -222,12 +240,12 @@ func engEventSeq(depth int, withClone bool) vsched.Instance {
 				j := op - 1
 				seq = append(seq, "sub("+names[j]+")")
 				k.E.Subscribe(pids[j])
-				member[pids[j].ID[4:]] = true
+				member[keys[j]] = true
 			default:
 				j := op - 1 - len(pids)
 				seq = append(seq, "unsub("+names[j]+")")
 				k.E.Unsubscribe(pids[j])
-				member[pids[j].ID[4:]] = false
+				member[keys[j]] = false
 			}
 		}
 		vsched.Quiesce()
